@@ -548,7 +548,7 @@ class Executor(Engine, ExprMixin, StmtMixin, CallMixin):
                 old = st.vars.get(n)
                 hint = parse_spec(vt[n]) if n in vt else (old.hint if isinstance(old, V) else None)
                 if old is not None and old is not UNBOUND and not isinstance(old, V):
-                    raise EngineError('loop modifies non-scalar local %s' % n)
+                    raise EngineError('loop modifies non-scalar local %s (%r)' % (n, old))
                 nv = fresh('lv_' + n)
                 if hint is not None:
                     self.assume(st, hint.assumption(nv))
@@ -651,6 +651,16 @@ class Executor(Engine, ExprMixin, StmtMixin, CallMixin):
             view = 'enumerate'
         else:
             seq = it
+        if view in ('items', 'keys', 'values'):
+            # specifications name the visiting order of a dict loop: ITER<n>[k] is the key visited at position k
+            st.vars['ITER%d' % ordinal] = seq
+        if isinstance(seq, V) and seq.hint is not None and seq.hint.kind == 'obj' and not seq.hint.opt:
+            # an object that is iterated: its sequence of items is given by the (assumed) contract of <Class>.__iter__
+            for cls in seq.hint.classes:
+                q = '%s.%s.__iter__' % (cls.__module__, cls.__qualname__)
+                if self.registry.get(q) is not None:
+                    seq = self.apply_contract(st, self.registry.get(q), None, [seq], {}, s.lineno)
+                    break
         is_str = isinstance(seq, V) and seq.hint is not None and seq.hint.kind == 'str' and not seq.hint.opt
         if not is_str and not (isinstance(seq, V) and seq.hint is not None and seq.hint.kind in ('list', 'tuple', 'dict', 'set')):
             raise EngineError('for-loop over %r' % (seq,))
@@ -733,6 +743,13 @@ class Executor(Engine, ExprMixin, StmtMixin, CallMixin):
                 sp = parse_spec(spec['var_types'][tn])
                 self.assume(st, sp.assumption(st.vars[tn].t))     # declared element type (data invariant of the container)
                 st.vars[tn] = V(st.vars[tn].t, sp)
+        for lemma in spec.get('assume_item', []):
+            # trusted data invariant of the elements of the iterated container, stated over the loop target
+            env = dict(self.top_env)
+            env.update({k: v for k, v in st.vars.items() if v is not UNBOUND})
+            wd, truth = self.eval_spec(st, lemma, self.cur_contract, env, self.top_pre)
+            self.assume(st, z3.Implies(wd, truth))
+            self.trust('assumed data invariant of iterated elements: ' + lemma)
         body_start.vars = dict(st.vars)      # the loop's `modifies` may name the loop target (e.g. field.attributes{})
         body_rec['witness'] = self.loop_witness_terms(st, spec)
         self.fold_axioms(st, spec, iv, True)
@@ -751,7 +768,12 @@ class Executor(Engine, ExprMixin, StmtMixin, CallMixin):
         if not st.dead():
             st.vars[ivar] = V(mkI(iv + 1), parse_spec('int'))
             # the iterated list itself must not change
-            if not is_str:
+            if spec.get('assume_iter_unchanged'):
+                self.trust('%s of %s: the iterated sequence is not modified by the loop body (assumed: %s)'
+                           % (name, self.cur_contract.qual.split('.')[-1], spec['assume_iter_unchanged']))
+                self.assume(st, And(self.list_len(st, r) == n, z3.Select(self.harr(st, '$ELEM'), r) == head_elem,
+                                    self.list_off(st, r) == head_off))
+            elif not is_str:
                 self.oblige(st, name + '.iter_unchanged', And(self.list_len(st, r) == n,
                             z3.Select(self.harr(st, '$ELEM'), r) == head_elem, self.list_off(st, r) == head_off),
                             'the list being iterated is not modified by the loop body')
@@ -766,6 +788,12 @@ class Executor(Engine, ExprMixin, StmtMixin, CallMixin):
         for b in breaks:
             b.state.vars.setdefault(ivar, V(mkI(iv), parse_spec('int')))
         self.merge_exit_states(st, breaks)
+        for i, p in enumerate(spec.get('post', [])):
+            # loop postcondition: has to hold on every way out of the loop (exhaustion and break); proved, not assumed
+            env = dict(self.top_env)
+            env.update({k: v for k, v in st.vars.items() if v is not UNBOUND})
+            wd, truth = self.eval_spec(st, p, self.cur_contract, env, self.top_pre)
+            self.oblige(st, '%s.post%d' % (name, i), And(wd, truth), 'after the loop (every exit): ' + p)
 
     def loop_witness_terms(self, st, spec):
         """hints for the vacuity guard of a loop body (never assumptions): a region of the state space to look for a model in"""
